@@ -225,12 +225,15 @@ async def find_deployment_id(name: str, force_suffix: bool = False) -> str:
     deployment_id = re.sub(r"[^a-z0-9]", "-", deployment_id)
     deployment_id = re.sub(r"-+", "-", deployment_id)
     deployment_id = re.sub(r"^-|-$", "", deployment_id)
+    # "Too short" is decided on the name's own alphanumerics: separators and the
+    # "d-" prefix below pad the id without making it any more distinctive
+    too_short = len(deployment_id) - deployment_id.count("-") < 3
     # DNS-1035: must start with an alphabetic character
     if deployment_id and not deployment_id[0].isalpha():
         deployment_id = "d-" + deployment_id
     deployment_id = deployment_id[:max_length].rstrip("-")
     base_deployment_id = deployment_id
-    if len(deployment_id) < 3 or force_suffix:
+    if too_short or force_suffix:
         deployment_id = _append_random_suffix(deployment_id, max_length)
 
     # Try to find a deployment id that is not in use
